@@ -96,18 +96,20 @@ Theorem C09_stalechan_refuted :
 Proof. exact stalechan_refuted. Qed.
 Print Assumptions C09_stalechan_refuted.
 
-(** Not the gate but what the cancellation sets off (region "literal-slot"): the frame slot of a
-    function literal is set back to its earlier content whenever a call of the literal returns;
-    after a cancellation all calls return at once, and a [go func(){...}()] statement in flight can
-    find the nil function in the slot: the new goroutine panics and the host process dies. *)
-Theorem C09_literal_slot_refuted :
-  crashed (slot_run slot_witness) = true
-  /\ started (slot_run [SLit 1; SGo; SLit 2; SGo; SLit 3; SGo]) = [3; 2; 1].
-Proof. exact literal_slot_refuted. Qed.
-Print Assumptions C09_literal_slot_refuted.
+(** Not the gate but what the cancellation set off (finding C09-literal-slot, repaired by abe7a69):
+    the frame slot of a function literal used to be set back to its earlier content whenever a call
+    of the literal returned; after a cancellation all calls return at once, and a
+    [go func(){...}()] statement in flight could find the nil function in the slot: the new
+    goroutine panicked and the host process died. Regression: the former witness starts its three
+    literals and nothing calls the nil function; and in general returning calls between a literal
+    and its go statement are harmless. *)
+Theorem C09_literal_slot_regression :
+  crashed (slot_run slot_witness) = false /\ started (slot_run slot_witness) = [3; 2; 1].
+Proof. exact literal_slot_regression. Qed.
+Print Assumptions C09_literal_slot_regression.
 
-Theorem C09_literal_slot_adjacent :
-  forall l g, crashed (slot_run l) = false ->
-    let s := slot_run (l ++ [SLit g; SGo]) in crashed s = false /\ hd_error (started s) = Some g.
-Proof. exact literal_slot_adjacent. Qed.
-Print Assumptions C09_literal_slot_adjacent.
+Theorem C09_literal_slot_returns_harmless :
+  forall l g rets, crashed (slot_run l) = false -> forallb is_ret rets = true ->
+    let s := slot_run (l ++ SLit g :: rets ++ [SGo]) in crashed s = false /\ hd_error (started s) = Some g.
+Proof. exact literal_slot_returns_harmless. Qed.
+Print Assumptions C09_literal_slot_returns_harmless.
